@@ -197,6 +197,7 @@ static void sched_child(const void *job, size_t n) {
  * under ASan (every schedule with <= 1 preemption, thorough 2); a SecAck mirror must still carry the reported payload. */
 #include "../fw/simbus.h"
 #include "../fw/cfg.h"
+#include "../fw/sanhooks.h"
 static void own_payload(uint8_t type, uint8_t *d, int *dl) {
 	memset(d, 0, 16); *dl = 9;
 	switch (type) {
@@ -218,15 +219,9 @@ static void own_payload(uint8_t type, uint8_t *d, int *dl) {
 static void *own_reader(void *arg) { (void) arg;
 	for (int i = 0; i < 2; i++) { uint8_t *m = bidib_read_message(); if (m) { memset(m, 0xEE, (size_t) m[0] + 1 > 3 ? 3 : 1); free(m); } m = bidib_read_error_message(); if (m) { memset(m, 0xEE, 1); free(m); } }
 	return NULL; }
-static void own_child(const void *job, size_t n) {
-	vs_dev_t devs[VS_MAXDEV]; int nd; size_t pl; const uint8_t *p = job_parse(job, n, devs, &nd, &pl);
-	uint8_t type = p[0];
-	hx_child_begin(devs, nd, 1, NULL, 0, 0);
-	cfg_install_std();
-	if (hx_start_normal(0)) res_infra("normal start failed");
-	hx_quiesce(); vs_sleep_us(2500000); hx_quiesce();
-	uint8_t *m; while ((m = bidib_read_message())) free(m); while ((m = bidib_read_error_message())) free(m);
-	hx_emit_san_events("start-up");
+static int own_one(uint8_t type) {
+	uint8_t *m;
+	san_reset(); san_tsan_ignore(0);
 	int logpos = SB.nlog; uint8_t d[16]; int dl; own_payload(type, d, &dl);
 	{ uint8_t mm[40], f[90]; int ml = rc_build_msg(mm, SB.n[0].addr, SB.n[0].seq, type, d, dl); SB.n[0].seq = SB.n[0].seq == 255 ? 1 : (uint8_t) (SB.n[0].seq + 1); env_push_quiet(f, rc_frame(f, mm, (size_t) ml, 1)); }
 	vs_window(1);
@@ -235,19 +230,41 @@ static void own_child(const void *job, size_t n) {
 	bidib_flush(); hx_quiesce();
 	while ((m = bidib_read_message())) free(m); while ((m = bidib_read_error_message())) free(m);
 	char what[80]; snprintf(what, sizeof what, "receiver handling type %02x || queue reader", type);
+	int before = res_nviol();
+	hx_emit_tsan_races(what); san_tsan_ignore(1);     /* TSan build: the reader's writes / free against any later access of the library */
 	hx_emit_san_events(what);
-	hx_hash_t h; hx_hash_init(&h);
-	for (int i = logpos; i < SB.nlog; i++) { hx_hash_add(&h, &SB.log[i].type, 1); hx_hash_add(&h, SB.log[i].data, (size_t) SB.log[i].dlen);
-		uint8_t t = SB.log[i].type; if ((t == MSG_BM_MIRROR_OCC || t == MSG_BM_MIRROR_FREE || t == MSG_BM_MIRROR_MULTIPLE || t == MSG_BM_MIRROR_POSITION) && (SB.log[i].dlen != dl || memcmp(SB.log[i].data, d, (size_t) dl)))
+	for (int i = logpos; i < SB.nlog; i++) { uint8_t t = SB.log[i].type; if ((t == MSG_BM_MIRROR_OCC || t == MSG_BM_MIRROR_FREE || t == MSG_BM_MIRROR_MULTIPLE || t == MSG_BM_MIRROR_POSITION) && (SB.log[i].dlen != dl || memcmp(SB.log[i].data, d, (size_t) dl)))
 			res_violation("buffer-used-after-queueing: a message the library still uses was handed to the caller", "%s: mirror %02x carries %s, reported %s", what, t, hx_hex(SB.log[i].data, (size_t) SB.log[i].dlen), hx_hex(d, (size_t) dl)); }
-	hx_emit_ledger_violations("C06");
-	res_printf("O %llx %llx\n", (unsigned long long) h.a, (unsigned long long) h.b);
-	hx_emit_trace(); res_finish();
+	return res_nviol() - before;
 }
+static int own_skip(int t) { return t == MSG_NODE_NEW || t == MSG_NODE_LOST || t == MSG_NODETAB || t == MSG_NODETAB_COUNT; }     /* these restart the node enumeration: C15's subject, seconds of virtual traffic */
+static void own_child(const void *job, size_t n) {
+	vs_dev_t devs[VS_MAXDEV]; int nd; size_t pl; const uint8_t *p = job_parse(job, n, devs, &nd, &pl);
+	uint8_t type = p[0]; int count = pl > 1 ? p[1] : 1;
+	hx_child_begin(devs, nd, count == 1, NULL, 0, 0);
+	if (count > 1) vs_window(0);
+	san_tsan_ignore(1);
+	cfg_install_std();
+	if (hx_start_normal(0)) res_infra("normal start failed");
+	hx_quiesce(); vs_sleep_us(2500000); hx_quiesce();
+	uint8_t *m; while ((m = bidib_read_message())) free(m); while ((m = bidib_read_error_message())) free(m);
+	hx_emit_san_events("start-up");
+	int logpos = SB.nlog; long done = 0;
+	for (int t = type; t < type + count && t <= 0xFF; t++) { if (count > 1 && own_skip(t)) continue; own_one((uint8_t) t); done++; if (count > 1) { vs_sleep_us(2500000); hx_quiesce(); } }
+	hx_hash_t h; hx_hash_init(&h);
+	for (int i = logpos; i < SB.nlog; i++) { hx_hash_add(&h, &SB.log[i].type, 1); hx_hash_add(&h, SB.log[i].data, (size_t) SB.log[i].dlen); }
+	hx_emit_ledger_violations("C06");
+	res_printf("O %llx %llx\nC own_types %ld\n", (unsigned long long) h.a, (unsigned long long) h.b, done);
+	if (count == 1) hx_emit_trace();
+	res_finish();
+}
+static size_t ownall_gen(long idx, uint8_t *payload, char *human, size_t hn) { payload[0] = (uint8_t) (0x80 + idx * 32); payload[1] = 32; snprintf(human, hn, "uplink types %02x..%02x, one after the other (default schedule)", payload[0], payload[0] + 31); return 2; }
 void c06_register(void) { harness_register("c06.own", own_child); harness_register("c06.route", route_child); harness_register("c06.queue", queue_child); harness_register("c06.sched", sched_child); }
 int c06_run(const char *tier) {
 	int thorough = !strcmp(tier, "thorough"); q_depth = thorough ? 5 : 3;
 	long execs = 0, states = 0, transitions = 0; int exhaustive = 1;
+	const char *variant = getenv("VERIF_VARIANT"); int tsan = variant && !strcmp(variant, "tsan");
+	if (tsan) goto own_only;        /* the ThreadSanitizer build runs the ownership harness only */
 	ex_spec_t r = { .harness = "c06.route", .ncases = (route_count() + ROUTE_BATCH - 1) / ROUTE_BATCH, .gen = route_gen, .label = "c06.route" };
 	ex_map(&r); execs += r.done; states += r.distinct_outcomes; transitions += route_count(); if (!r.exhaustive) exhaustive = 0;
 	ex_spec_t q = { .harness = "c06.queue", .ncases = queue_count(), .gen = queue_gen, .label = "c06.queue" };
@@ -255,8 +272,16 @@ int c06_run(const char *tier) {
 	e1_spec_t s = { .harness = "c06.sched", .param = "", .nparam = 0, .bound = thorough ? 3 : 2, .label = "c06.sched two readers vs receiver" };
 	e1_explore(&s); long ex = 0; for (int k = 0; k < 8; k++) ex += s.schedules_by_cost[k];
 	execs += ex; states += s.distinct_outcomes; transitions += s.choice_points; if (!s.exhaustive) exhaustive = 0;
-	long own = 0; for (int t = 0x80; t <= 0xFF; t++) { uint8_t tp[1] = {(uint8_t) t}; char label[64]; snprintf(label, sizeof label, "c06.own type %02x", t);
-		if (t == MSG_NODE_NEW || t == MSG_NODE_LOST || t == MSG_NODETAB || t == MSG_NODETAB_COUNT) continue;     /* these restart the node enumeration: C15's subject, seconds of virtual traffic */
+own_only:;
+	int defv = variant && (!strcmp(variant, "autop") || !strcmp(variant, "autoz"));      /* not repeated in the definedness builds */
+	long own = 0;
+	if (tsan) {     /* happens-before detection does not need the racing interleaving: every type once under the default schedule */
+		ex_spec_t oa = { .harness = "c06.own", .ncases = 4, .gen = ownall_gen, .label = "c06.own (ThreadSanitizer build)" };
+		ex_map(&oa); execs += oa.done; states += oa.distinct_outcomes; transitions += rep_get("own_types"); if (!oa.exhaustive) exhaustive = 0;
+		rep_note("c06.own under ThreadSanitizer: %ld uplink types, default schedule", rep_get("own_types"));
+		rep_count("executions", execs); rep_count("states", states); rep_count("transitions", transitions); rep_flag("exhaustive", exhaustive); return 0; }
+	for (int t = 0x80; t <= 0xFF && !defv; t++) { uint8_t tp[1] = {(uint8_t) t}; char label[64]; snprintf(label, sizeof label, "c06.own type %02x", t);
+		if (own_skip(t)) continue;
 		e1_spec_t os = { .harness = "c06.own", .param = tp, .nparam = 1, .bound = thorough ? 2 : 1, .label = strdup(label) };
 		e1_explore(&os); for (int k = 0; k < 8; k++) own += os.schedules_by_cost[k]; states += os.distinct_outcomes; transitions += os.choice_points; if (!os.exhaustive) exhaustive = 0; }
 	execs += own;
